@@ -923,8 +923,9 @@ func runC05(c *Ctx) {
 							if i >= len(sc.Params) || !DerivesAny(a, false, isInst) {
 								continue
 							}
-							EachInstr(sc, func(i3 ssa.Instruction) {
-								if d, ok := i3.(*ssa.Defer); ok && d.Call.StaticCallee() == instClose && DerivesOnly(d.Call.Args[0], false, func(v ssa.Value) bool { return v == ssa.Value(sc.Params[i]) }) {
+							par := ssa.Value(sc.Params[i])
+							EachInstrDeep(sc, func(_ *ssa.Function, i3 ssa.Instruction) {
+								if d, ok := i3.(*ssa.Defer); ok && d.Call.StaticCallee() == instClose && DerivesOnly(d.Call.Args[0], false, func(v ssa.Value) bool { return v == par }) {
 									closed = true
 								}
 							})
@@ -945,7 +946,76 @@ func runC05(c *Ctx) {
 			}
 		})
 		if ta == nil {
-			c.Bad("O5.7", fk(instClose)+":closes-io-closer-guns", instClose.Pos(), "instance.Close must test instance.gun for io.Closer with the comma-ok form")
+			// the closer resolved once at creation: a field of the instance whose every store is the comma-ok io.Closer
+			// view of the gun the same constructor stores; Close() is called on it exactly once where it is non-nil
+			okCached, detail := false, "instance.Close must test instance.gun for io.Closer with the comma-ok form"
+			var closeCalls []*ssa.Call
+			EachInstr(instClose, func(in ssa.Instruction) {
+				if cl, ok := in.(*ssa.Call); ok && IsCall(in, Spec{"io", "Closer", "Close"}) {
+					closeCalls = append(closeCalls, cl)
+				}
+			})
+			if len(closeCalls) == 1 {
+				cl := closeCalls[0]
+				if fv, base := FieldOf(Strip(cl.Call.Value)); fv != nil {
+					_, tn := NamedOf(base.Type())
+					stores := P.FieldStores(fv)
+					all := tn == "instance" && len(stores) > 0
+					for _, sv := range stores {
+						ex, isEx := Strip(sv).(*ssa.Extract)
+						var t *ssa.TypeAssert
+						if isEx && ex.Index == 0 {
+							t, _ = ex.Tuple.(*ssa.TypeAssert)
+						}
+						if t == nil || !t.CommaOk {
+							all = false
+							continue
+						}
+						if _, n := NamedOf(t.AssertedType); n != "Closer" {
+							all = false
+						}
+						// the asserted value is the gun this constructor stores
+						sameGun := false
+						for f, v := range compositeFields(t.Parent(), "instance") {
+							if f == "gun" && sameRoots(v, t.X) {
+								sameGun = true
+							}
+						}
+						if !sameGun {
+							all = false
+						}
+					}
+					nonNil := false
+					for _, f := range CmpFactsAt(cl) {
+						if g, _ := FieldOf(Strip(f.X)); f.Op == token.NEQ && IsNilConst(f.Y) && g == fv {
+							nonNil = true
+						}
+					}
+					iv := PathQuery{Fn: instClose, Weight: func(in ssa.Instruction) (int, int) {
+						if in == ssa.Instruction(cl) {
+							return 1, 1
+						}
+						return 0, 0
+					}, Assume: []Assumption{{Pred: func(v ssa.Value) bool {
+						b, ok := v.(*ssa.BinOp)
+						if !ok {
+							return false
+						}
+						g, _ := FieldOf(Strip(b.X))
+						return ok && b.Op == token.NEQ && IsNilConst(b.Y) && g == fv
+					}, Val: true}, {Pred: func(v ssa.Value) bool {
+						b, ok := v.(*ssa.BinOp)
+						if !ok {
+							return false
+						}
+						g, _ := FieldOf(Strip(b.X))
+						return ok && b.Op == token.EQL && IsNilConst(b.Y) && g == fv
+					}, Val: false}}}.Count()
+					okCached = all && nonNil && iv.Is(1, 1)
+					detail = fmt.Sprintf("Close is called on the field %s: every store is the comma-ok io.Closer view of the constructor's gun: %v; called only where non-nil: %v; calls per Close with a closable gun = %v (want [1,1])", fv.Name(), all, nonNil, iv)
+				}
+			}
+			c.Check(okCached, "O5.7", fk(instClose)+":closes-io-closer-guns", instClose.Pos(), detail)
 		} else {
 			okPred := func(v ssa.Value) bool { return DerivesOnly(v, false, IsResultOf(ta, 1)) }
 			iv := PathQuery{Fn: instClose, Start: ta, Edge: RestrictBool(okPred, true), Weight: func(in ssa.Instruction) (int, int) {
